@@ -30,12 +30,14 @@ func (n *node) RouteSendPID(from gen.PID, to gen.PID, options gen.MessageOptions
 	}
 
 	// local
+	lib.VerifPoint("send.lookup", to)
 	value, found := n.processes.Load(to)
 	if found == false {
 		return gen.ErrProcessUnknown
 	}
 	p := value.(*process)
 
+	lib.VerifPoint("send.alive", p)
 	if alive := p.isAlive(); alive == false {
 		return gen.ErrProcessTerminated
 	}
@@ -101,12 +103,14 @@ func (n *node) RouteSendProcessID(from gen.PID, to gen.ProcessID, options gen.Me
 		return connection.SendProcessID(from, to, options, message)
 	}
 
+	lib.VerifPoint("send.lookup", to)
 	value, found := n.names.Load(to.Name)
 	if found == false {
 		return gen.ErrProcessUnknown
 	}
 	p := value.(*process)
 
+	lib.VerifPoint("send.alive", p)
 	if alive := p.isAlive(); alive == false {
 		return gen.ErrProcessTerminated
 	}
@@ -169,12 +173,14 @@ func (n *node) RouteSendAlias(from gen.PID, to gen.Alias, options gen.MessageOpt
 		return connection.SendAlias(from, to, options, message)
 	}
 
+	lib.VerifPoint("send.lookup", to)
 	value, found := n.aliases.Load(to)
 	if found == false {
 		return gen.ErrProcessUnknown
 	}
 	p := value.(*process)
 
+	lib.VerifPoint("send.alive", p)
 	if alive := p.isAlive(); alive == false {
 		return gen.ErrProcessTerminated
 	}
@@ -404,12 +410,14 @@ func (n *node) RouteCallPID(from gen.PID, to gen.PID, options gen.MessageOptions
 	}
 
 	// local
+	lib.VerifPoint("send.lookup", to)
 	value, found := n.processes.Load(to)
 	if found == false {
 		return gen.ErrProcessUnknown
 	}
 	p := value.(*process)
 
+	lib.VerifPoint("send.alive", p)
 	if alive := p.isAlive(); alive == false {
 		return gen.ErrProcessTerminated
 	}
@@ -456,11 +464,13 @@ func (n *node) RouteCallProcessID(from gen.PID, to gen.ProcessID, options gen.Me
 		return connection.CallProcessID(from, to, options, message)
 	}
 
+	lib.VerifPoint("send.lookup", to)
 	value, found := n.names.Load(to.Name)
 	if found == false {
 		return gen.ErrProcessUnknown
 	}
 	p := value.(*process)
+	lib.VerifPoint("send.alive", p)
 	if alive := p.isAlive(); alive == false {
 		return gen.ErrProcessTerminated
 	}
@@ -509,11 +519,13 @@ func (n *node) RouteCallAlias(from gen.PID, to gen.Alias, options gen.MessageOpt
 		return connection.CallAlias(from, to, options, message)
 	}
 
+	lib.VerifPoint("send.lookup", to)
 	value, found := n.aliases.Load(to)
 	if found == false {
 		return gen.ErrProcessUnknown
 	}
 	p := value.(*process)
+	lib.VerifPoint("send.alive", p)
 	if alive := p.isAlive(); alive == false {
 		return gen.ErrProcessTerminated
 	}
@@ -1524,6 +1536,7 @@ func (n *node) Creation() int64 {
 }
 
 func (n *node) sendExitMessage(from gen.PID, to gen.PID, message any) error {
+	lib.VerifPoint("send.lookup", to)
 	value, loaded := n.processes.Load(to)
 	if loaded == false {
 		return gen.ErrProcessUnknown
@@ -1557,6 +1570,7 @@ func (n *node) sendEventMessage(
 ) error {
 	var queue lib.QueueMPSC
 
+	lib.VerifPoint("send.lookup", to)
 	value, loaded := n.processes.Load(to)
 	if loaded == false {
 		return gen.ErrProcessUnknown
